@@ -700,3 +700,288 @@ func ruleGauge1(c *Ctx) []*Ob {
 	o.add(fn, "CurSegments covers every segment", c.pos(f.Pos()), segsOK, why)
 	return o.list
 }
+
+func init() {
+	register(&Rule{
+		ID: "COV-4",
+		Doc: "The file of a store is a fact about the whole footer tree: a FileRef that is put to use (AddRef, Stat, persistFooter's file, removeFileOnClose, a return) is not derived from a fixed element " +
+			"of one footer's SegmentLocs (`slocs[0].mref.fref`) - the top-level footer has no segments when only child collections were ever written - but from the tree-aware accessor " +
+			"Footer.mmapRef / Footer.fileRef, the only functions allowed to index SegmentLocs for that purpose (they fall back to the child footers). Reading such an element only to validate " +
+			"it (nil checks) is fine. Found as D21/D22/D23: startOrReuseFile, snapshotPrevious, snapshotRevert and compactMaybe each took the file from slocs[0].",
+		Props: []string{"C11", "C12", "C07", "C20"},
+		Floor: 1,
+		Run:   ruleCov4,
+		Exceptions: []string{"calcPartialCompactionStart: decides about the segment list it was given; slocs[0]'s file is stat'ed only behind compStartIdx > 0 (the list has at least two segments)"},
+	})
+}
+
+func ruleCov4(c *Ctx) []*Ob {
+	o := newObs(c, "COV-4")
+	fMref := c.Field("SegmentLoc", "mref")
+	fFref := c.Field("mmapRef", "fref")
+	allowed := map[string]bool{"(*Footer).mmapRef": true, "(*Footer).fileRef": true}
+	// is v used for anything but nil comparisons (directly or through further field reads)?
+	var usedForReal func(v ssa.Value, d int) (bool, ssa.Instruction)
+	usedForReal = func(v ssa.Value, d int) (bool, ssa.Instruction) {
+		refs := v.Referrers()
+		if refs == nil || d > 6 {
+			return false, nil
+		}
+		for _, r := range *refs {
+			switch x := r.(type) {
+			case *ssa.DebugRef:
+			case *ssa.BinOp:
+				if (x.Op == token.EQL || x.Op == token.NEQ) && (isNilConst(x.X) || isNilConst(x.Y)) {
+					continue
+				}
+				return true, r
+			case *ssa.FieldAddr:
+				if u, at := usedForReal(x, d+1); u {
+					return true, at
+				}
+			case *ssa.UnOp:
+				if x.Op == token.MUL {
+					if u, at := usedForReal(x, d+1); u {
+						return true, at
+					}
+					continue
+				}
+				return true, r
+			case *ssa.Phi:
+				if u, at := usedForReal(x, d+1); u {
+					return true, at
+				}
+			case *ssa.Store:
+				if a, isA := x.Addr.(*ssa.Alloc); isA && !a.Heap && x.Val == v {
+					// a local variable: follow its loads
+					if rr := a.Referrers(); rr != nil {
+						for _, u := range *rr {
+							if ld, isLd := u.(*ssa.UnOp); isLd && ld.Op == token.MUL {
+								if uu, at := usedForReal(ld, d+1); uu {
+									return true, at
+								}
+							}
+						}
+					}
+					continue
+				}
+				return true, r
+			default:
+				return true, r
+			}
+		}
+		return false, nil
+	}
+	n := 0
+	for _, f := range c.Funcs {
+		if c.isHarness(f) {
+			continue
+		}
+		fn := c.fname(f)
+		eachInstr(f, func(i ssa.Instruction) {
+			ia, ok := i.(*ssa.IndexAddr)
+			if !ok {
+				return
+			}
+			if _, isK := ia.Index.(*ssa.Const); !isK {
+				return
+			}
+			var elem types.Type
+			switch t := ia.X.Type().Underlying().(type) {
+			case *types.Slice:
+				elem = t.Elem()
+			case *types.Pointer:
+				if at, isArr := t.Elem().Underlying().(*types.Array); isArr {
+					elem = at.Elem()
+				}
+			}
+			if elem == nil || typeName(elem) != "SegmentLoc" {
+				return
+			}
+			// ia -> .mref -> load -> .fref -> load
+			refs := ia.Referrers()
+			if refs == nil {
+				return
+			}
+			for _, r := range *refs {
+				fa, isFA := r.(*ssa.FieldAddr)
+				if !isFA || fieldAddrVar(fa) != fMref {
+					continue
+				}
+				for _, mrefLoad := range loadsOf(fa) {
+					for _, r2 := range derefs(mrefLoad) {
+						fa2, isFA2 := r2.(*ssa.FieldAddr)
+						if !isFA2 || fieldAddrVar(fa2) != fFref {
+							continue
+						}
+						for _, frefLoad := range loadsOf(fa2) {
+							n++
+							if allowed[fn] {
+								o.add(fn, "file from SegmentLocs["+ia.Index.Name()+"]", c.instrPos(ia), true, "the tree-aware accessor itself")
+								continue
+							}
+							if fn == "calcPartialCompactionStart" {
+								o.trivial(fn, "file from SegmentLocs["+ia.Index.Name()+"]", c.instrPos(ia),
+									"table exception: the function decides about the list it was given and reads the file size only behind compStartIdx > 0, i.e. when that list has at least two segments")
+								continue
+							}
+							used, at := usedForReal(frefLoad, 0)
+							why := "read only to validate it (nil checks)"
+							if used {
+								why = "the file is taken from a fixed element of one footer's SegmentLocs and used at " + c.instrPos(at) +
+									": when only child collections hold data the top-level list is empty (guarded: the step is silently skipped; unguarded: index out of range) - " +
+									"persist started a new file every round (D21), history could not be walked or reverted (D22), the superseded file survived a full compaction (D23)"
+							}
+							o.add(fn, "file from SegmentLocs["+ia.Index.Name()+"]", c.instrPos(ia), !used, why)
+						}
+					}
+				}
+			}
+		})
+	}
+	if n == 0 {
+		o.trivial("-", "no file is derived from a fixed SegmentLocs element", "-", "nothing to decide")
+	}
+	return o.list
+}
+
+// loadsOf: the loads through address a (directly, or via a local it was copied into is not followed).
+func loadsOf(a ssa.Value) []ssa.Value {
+	var out []ssa.Value
+	if refs := a.Referrers(); refs != nil {
+		for _, r := range *refs {
+			if ld, ok := r.(*ssa.UnOp); ok && ld.Op == token.MUL {
+				out = append(out, ld)
+			}
+		}
+	}
+	return out
+}
+
+// derefs: instructions that use pointer value p (through phis and local cells) as the base of a field address.
+func derefs(p ssa.Value) []ssa.Instruction {
+	var out []ssa.Instruction
+	seen := map[ssa.Value]bool{}
+	var rec func(v ssa.Value, d int)
+	rec = func(v ssa.Value, d int) {
+		if seen[v] || d > 6 {
+			return
+		}
+		seen[v] = true
+		refs := v.Referrers()
+		if refs == nil {
+			return
+		}
+		for _, r := range *refs {
+			switch x := r.(type) {
+			case *ssa.FieldAddr:
+				out = append(out, x)
+			case *ssa.Phi:
+				rec(x, d+1)
+			case *ssa.Store:
+				if a, isA := x.Addr.(*ssa.Alloc); isA && x.Val == v {
+					for _, ld := range loadsOf(a) {
+						rec(ld, d+1)
+					}
+				}
+			}
+		}
+	}
+	rec(p, 0)
+	return out
+}
+
+func init() {
+	register(&Rule{
+		ID: "COV-5",
+		Doc: "What is refreshed for a stack is refreshed for its children: a function that stores a (non-nil) lowerLevelSnapshot into a segmentStack that is shared - reached through one of the " +
+			"collection's section pointers, not freshly built - also hands that stack to a walker that ranges over the child stacks and stores their lowerLevelSnapshot (refreshChildLLSnapshots). " +
+			"The child stacks resolve their merge operands through their own lowerLevelSnapshot; re-stamping only the top level at hand-over (the MB-19667 repair) left the children on the " +
+			"snapshot of the merger cycle's start (D25).",
+		Props: []string{"C08", "C11", "C13"},
+		Floor: 1,
+		Run:   ruleCov5,
+	})
+}
+
+func ruleCov5(c *Ctx) []*Ob {
+	o := newObs(c, "COV-5")
+	fLL := c.Field("segmentStack", "lowerLevelSnapshot")
+	// walkers: functions that range over childSegStacks and store lowerLevelSnapshot on a child (recursively)
+	isWalker := map[*ssa.Function]bool{}
+	for _, g := range c.Funcs {
+		if len(rangeLoopsOver(g, "childSegStacks")) == 0 && len(rangeLoopsOver(g, "childCollections")) == 0 {
+			continue
+		}
+		storesLL, recurses := false, false
+		for _, a := range fieldAccesses(g, func(v *types.Var) bool { return v == fLL }) {
+			if a.Kind == "store" {
+				storesLL = true
+			}
+		}
+		eachInstr(g, func(i ssa.Instruction) {
+			if ci, ok := i.(ssa.CallInstruction); ok && ci.Common().StaticCallee() == g {
+				recurses = true
+			}
+		})
+		if storesLL && recurses {
+			isWalker[g] = true
+		}
+	}
+	n := 0
+	for _, f := range c.Funcs {
+		if c.isHarness(f) || isWalker[f] {
+			continue
+		}
+		fn := c.fname(f)
+		for _, a := range fieldAccesses(f, func(v *types.Var) bool { return v == fLL }) {
+			if a.Kind != "store" || isNilConst(a.Val) || isFreshAlloc(a.Base) {
+				continue
+			}
+			shared := false
+			for _, og := range origins(a.Base) {
+				if fv, _ := loadedField(og); fv != nil && isSectionField(c, fv) {
+					shared = true
+				}
+			}
+			if !shared {
+				continue
+			}
+			n++
+			covered := ""
+			eachInstr(f, func(i ssa.Instruction) {
+				call, ok := i.(*ssa.Call)
+				if !ok || covered != "" {
+					return
+				}
+				g := call.Call.StaticCallee()
+				if g == nil || !isWalker[g] {
+					return
+				}
+				for _, arg := range call.Call.Args {
+					if sameValue(arg, a.Base) {
+						covered = c.fname(g) + " at " + c.instrPos(i)
+					}
+					for _, x := range origins(arg) {
+						for _, y := range origins(a.Base) {
+							fx, bx := loadedField(x)
+							fy, by := loadedField(y)
+							if x == y || (fx != nil && fx == fy && bx != nil && by != nil && canonKey(bx) == canonKey(by)) {
+								covered = c.fname(g) + " at " + c.instrPos(i)
+							}
+						}
+					}
+				}
+			})
+			why := "the child stacks are refreshed by " + covered
+			if covered == "" {
+				why = "the shared stack's lowerLevelSnapshot is replaced but its child stacks keep theirs: a child's merge operands are then resolved through a snapshot that misses what was persisted meanwhile - the operands written by that persist are lost for good (\":b:c:d\" instead of \"a:b:c:d\")"
+			}
+			o.add(fn, "store "+accessPath(a.Base)+".lowerLevelSnapshot", c.instrPos(a.Instr), covered != "", why)
+		}
+	}
+	if n == 0 {
+		o.trivial("-", "no shared stack's lowerLevelSnapshot is replaced", "-", "nothing to decide")
+	}
+	return o.list
+}
